@@ -110,6 +110,31 @@ def applicable(meta, extras):
     return out
 
 
+def requested_extras(n):
+    """the extras currently requested of a node, read off the state (the labels of the links that point at it) - not
+    through the code's own accessor, which is part of what is being judged"""
+    ex = set()
+    for r in n.reverse_deps:
+        reason = r.dependencies.get(n)
+        if reason is not None:
+            ex |= set(reason.extras)
+    return ex
+
+
+def fresh_links_exact(g, key, extras_before=()):
+    """right after a placeholder was solved: its links are the ones this very operation made, so they must be exactly
+    the applicable requirements (the open finding D17 is about links that *stay* when a requirer leaves, not about
+    links that are made)"""
+    n = g.nodes.get(key)
+    if n is None or n.metadata is None:
+        return True
+    # (on alphabets with cycles the labels of the links that point at the node may change while it is being expanded:
+    # what was requested when the operation began counts as well)
+    need = {GL.norm(q.project_name) for q in applicable(n.metadata, requested_extras(n) | set(extras_before))}
+    have = {d.key for d in n.dependencies}
+    return have <= need
+
+
 def check_graph(g, roots):
     """The coherence predicate of the property, on the real object graph."""
     errs = []
@@ -148,6 +173,9 @@ def check_graph(g, roots):
             except Exception:
                 errs.append("extras-crash")
                 continue
+            if set(ex) != requested_extras(n):
+                errs.append("extras-accessor-differs-from-the-links")
+                ex = requested_extras(n)
             need = {GL.norm(q.project_name) for q in applicable(n.metadata, ex)}
             have = {d.key for d in n.dependencies}
             if need - have:
@@ -161,10 +189,10 @@ def check_graph(g, roots):
                         errs.append("unsolved-rdep")
                         continue
                     try:
-                        rex = r.extras
+                        r.extras
                     except Exception:
                         continue
-                    for q in applicable(r.metadata, rex):
+                    for q in applicable(r.metadata, requested_extras(r)):
                         if GL.norm(q.project_name) == k and not q.specifier.contains(n.metadata.version, prereleases=True):
                             errs.append("reqsat")
         if not n.reverse_deps and k not in roots:
@@ -265,6 +293,7 @@ class HistoryStream(Stream):
         return enc
 
     def _run(self, case):
+        self._fresh = []
         enc = self._enc(case)
         rp = Replayer()
         states = []
@@ -279,8 +308,24 @@ class HistoryStream(Stream):
                 roots.add(op["key"])
             if op["kind"] == "remove" and op["upstream"]:
                 roots.discard(op["key"])
+            solved_before = {k for k, n in rp.g.nodes.items() if n.metadata is not None}
+            extras_before = set()
+            if op["kind"] == "add" and op.get("meta") and op["key"] in rp.g.nodes:
+                extras_before = requested_extras(rp.g.nodes[op["key"]]) | (set(GL.P(op["reason"]).extras) if op.get("reason") else set())
+            import req_compile.dists as D
+            orig_add_reason = D.DependencyNode.add_reason
+
+            def add_reason(self_, node, reason, _key=op["key"], _seen=extras_before):
+                # every label put on a link that points at the node while the operation runs
+                if node.key == _key and reason is not None:
+                    _seen.update(reason.extras)
+                return orig_add_reason(self_, node, reason)
+            D.DependencyNode.add_reason = add_reason
             try:
-                rp.apply(op)
+                try:
+                    rp.apply(op)
+                finally:
+                    D.DependencyNode.add_reason = orig_add_reason
             except RecursionError:
                 states.append({"err": "RecursionError"})
                 verdicts.append(["raises-RecursionError"])
@@ -291,11 +336,16 @@ class HistoryStream(Stream):
                 break
             states.append({"ok": enc.dump(rp.g), "roots": sorted(roots)})
             verdicts.append(sorted(set(check_graph(rp.g, roots))))
+            # (when the operation itself made another node lose its distribution - a new link excluded its version - a
+            # requirer has left on the way: that is the recorded finding again, inside one operation)
+            cascade = any(k not in rp.g.nodes or rp.g.nodes[k].metadata is None for k in solved_before)
+            if op["kind"] == "add" and op.get("meta") and not op["meta"]["isMeta"] and not cascade and not fresh_links_exact(rp.g, op["key"], extras_before):
+                self._fresh.append(idx)
         return enc, states, verdicts, applied
 
     def impl(self, case):
         enc, states, verdicts, applied = self._run(case)
-        return {"states": states, "verdicts": verdicts, "applied": applied}
+        return {"states": states, "verdicts": verdicts, "applied": applied, "fresh_inexact": list(self._fresh)}
 
     def model_request(self, case, r):
         enc = self._enc(case)
@@ -344,6 +394,11 @@ class HistoryStream(Stream):
                     seen.add(sig)
                     fails.append((sig, {"after_op": r["applied"][i], "op": case["ops"][r["applied"][i]]}))
             if v:
+                break
+        first_bad = next((r["applied"][i] for i, v in enumerate(r["verdicts"]) if [e for e in v if e != "edge-stale-extra"]), 10 ** 9)
+        for idx in r.get("fresh_inexact", []):
+            if idx <= first_bad:
+                fails.append(("C10/solving-makes-a-link-for-an-inapplicable-requirement/%s-alphabet" % case["mode"], {"after_op": idx, "op": case["ops"][idx]}))
                 break
         return fails
 
